@@ -20,6 +20,7 @@ import (
 var richLocs = []string{
 	"info", "content", "annot", "form", "names", "embfile", "embname", "nested", "hexstr", "streamdict",
 	"flate", "asciihex", "outline", "xmp", "sigcontents", "sigwidget",
+	"indstr_annot", "indstr_array", "indstr_info", "indstr_page", "indstr_catalog",
 }
 
 func zlibBytes(b []byte) []byte {
@@ -36,7 +37,7 @@ func zlibBytes(b []byte) []byte {
 // an XMP metadata stream. Empty strings and strings with escapes are included (fixed text, not markers).
 // sig adds a signature field whose value dictionary has a /Contents hex string.
 func richDoc(version string, mk func(loc string) string, sig bool) *rawpdf.Doc {
-	return richDocForm(version, mk, sig, "literal")
+	return richDocForm(version, mk, sig, "literal", false)
 }
 
 // pdfString renders text as a PDF string object in the given form: "literal" (..), "hex" <..> or "utf16" (hex string
@@ -67,7 +68,9 @@ func markerForms(text string) [][]byte {
 	return [][]byte{[]byte(text), []byte(hx), []byte(strings.ToUpper(hx)), u16, []byte(hx16), []byte(strings.ToUpper(hx16))}
 }
 
-func richDocForm(version string, mk func(loc string) string, sig bool, form string) *rawpdf.Doc {
+// privRoots additionally hangs indirect string objects on private entries of the catalog and of a page dictionary
+// (pdfcpu does not carry those over, so they are used for the visibility check only, not for the round trip).
+func richDocForm(version string, mk func(loc string) string, sig bool, form string, privRoots bool) *rawpdf.Doc {
 	S := func(loc string) string { return pdfString(mk(loc), form) }
 	d := &rawpdf.Doc{Version: version}
 	catalog := d.Reserve()
@@ -110,7 +113,15 @@ func richDocForm(version string, mk func(loc string) string, sig bool, form stri
 	priv := d.Add(fmt.Sprintf("<< /Blocks %d 0 R /A [ %s [ (level two \\(with parens\\) \\\\ and \\101 octal) << /K %s /E () /H <> /Bin (\\000\\001\\377\\376) >> ] ] "+
 		"/D << /D2 << /S (deep string) /Hex <%s> /U16 <FEFF00500044004600E4> >> >> /Streams [%d 0 R %d 0 R] >>",
 		blocks, S("nested"), S("nested"), hex.EncodeToString([]byte(mk("hexstr"))), sdict, empty))
-	annot := d.Add(fmt.Sprintf("<< /Type /Annot /Subtype /Text /Rect [10 10 40 40] /Contents %s /T (verif) /NM (a1) /P %d 0 R /VERIF:Extras %d 0 R >>", S("annot"), page1, priv))
+	// indirect scalar objects: strings that are objects of their own (members of the object stream in that layout),
+	// referenced only from private keys of an annotation, a nested array, the info dict, a page and the catalog
+	indAnnot := d.Add(S("indstr_annot"))
+	indAnnotHex := d.Add(pdfString(mk("indstr_annot"), "hex"))
+	indArr1 := d.Add(S("indstr_array"))
+	indArr2 := d.Add(pdfString(mk("indstr_array"), "utf16"))
+	indArr := d.Add(fmt.Sprintf("[ %d 0 R [ %d 0 R /Tag ] ]", indArr1, indArr2))
+	annot := d.Add(fmt.Sprintf("<< /Type /Annot /Subtype /Text /Rect [10 10 40 40] /Contents %s /T (verif) /NM (a1) /P %d 0 R /VERIF:Extras %d 0 R "+
+		"/VERIF:AppNote %d 0 R /VERIF:AppTag %d 0 R /VERIF:AppList %d 0 R >>", S("annot"), page1, priv, indAnnot, indAnnotHex, indArr))
 	field := d.Add(fmt.Sprintf("<< /Type /Annot /Subtype /Widget /FT /Tx /T (f1) /TU (tooltip) /V %s /DV %s /DA (/Helv 12 Tf 0 g) /Rect [50 50 250 80] /P %d 0 R >>",
 		S("form"), S("form"), page1))
 	annots1 := fmt.Sprintf("%d 0 R %d 0 R", annot, field)
@@ -122,8 +133,13 @@ func richDocForm(version string, mk func(loc string) string, sig bool, form stri
 		annots1 += fmt.Sprintf(" %d 0 R", sigf)
 		fields += fmt.Sprintf(" %d 0 R", sigf)
 	}
+	pagePriv, catPriv := "", ""
+	if privRoots {
+		pagePriv = fmt.Sprintf(" /VERIF:PageNote %d 0 R", d.Add(S("indstr_page")))
+		catPriv = fmt.Sprintf(" /VERIF:CatNote %d 0 R", d.Add(S("indstr_catalog")))
+	}
 	res := fmt.Sprintf("/Resources << /Font << /F1 %d 0 R /Helv %d 0 R >> >>", font, font)
-	d.Set(page1, fmt.Sprintf("<< /Type /Page /Parent %d 0 R /Contents [%d 0 R %d 0 R] %s /Annots [%s] >>", pages, c1, c3, res, annots1))
+	d.Set(page1, fmt.Sprintf("<< /Type /Page /Parent %d 0 R /Contents [%d 0 R %d 0 R] %s /Annots [%s]%s >>", pages, c1, c3, res, annots1, pagePriv))
 	d.Set(page2, fmt.Sprintf("<< /Type /Page /Parent %d 0 R /Contents %d 0 R %s /Rotate 90 >>", pages, c2, res))
 	d.Set(pages, fmt.Sprintf("<< /Type /Pages /Count 2 /Kids [%d 0 R %d 0 R] /MediaBox [0 0 300 400] >>", page1, page2))
 
@@ -140,10 +156,10 @@ func richDocForm(version string, mk func(loc string) string, sig bool, form stri
 		"</rdf:li></rdf:Alt></dc:title></rdf:Description></rdf:RDF></x:xmpmeta><?xpacket end='w'?>"
 	meta := d.AddStream("/Type /Metadata /Subtype /XML", []byte(xmp))
 
-	d.Set(catalog, fmt.Sprintf("<< /Type /Catalog /Pages %d 0 R /Names %d 0 R /Outlines %d 0 R /Metadata %d 0 R /AcroForm << /Fields [%s] /DA (/Helv 12 Tf 0 g) /DR << /Font << /Helv %d 0 R >> >> >> >>",
-		pages, names, outlines, meta, fields, font))
+	d.Set(catalog, fmt.Sprintf("<< /Type /Catalog /Pages %d 0 R /Names %d 0 R /Outlines %d 0 R /Metadata %d 0 R /AcroForm << /Fields [%s] /DA (/Helv 12 Tf 0 g) /DR << /Font << /Helv %d 0 R >> >> >>%s >>",
+		pages, names, outlines, meta, fields, font, catPriv))
 	if version != "2.0" {
-		d.Info = d.Add(fmt.Sprintf("<< /Title %s /Subject (sub \\(ject\\)) /Keywords () /VerifCustom %s /Author <FEFF004100FC> >>", S("info"), S("info")))
+		d.Info = d.Add(fmt.Sprintf("<< /Title %s /Subject (sub \\(ject\\)) /Keywords () /VerifCustom %s /Author <FEFF004100FC> /VerifRef %d 0 R >>", S("info"), S("info"), d.Add(S("indstr_info"))))
 	} else {
 		d.Info = d.Add("<< /CreationDate (D:20240101000000Z) >>")
 	}
